@@ -65,6 +65,10 @@ pub fn build_doc(code: u64, k: usize) -> Vec<N> {
     }
     doc
 }
+/// The same document with the target of its first link replaced by the empty string.
+fn with_empty_first_href(h: &str) -> String {
+    h.replacen("href=\"/1\"", "href=\"\"", 1)
+}
 
 struct Link {
     href: String,
@@ -291,6 +295,17 @@ impl Scope for S {
         for &w in widths {
             for cfg in cfgs() {
                 check_parsed(&h, &ls, has_table, w, &cfg, cx);
+            }
+        }
+        if k >= 1 && k <= 2 {
+            // an empty target is still a target: "[1]: " is listed and numbering is unaffected
+            let he = with_empty_first_href(&h);
+            let d = dom::parse(he.as_bytes());
+            let ls = links(&d);
+            for &w in &self.widths {
+                for cfg in cfgs() {
+                    check_parsed(&he, &ls, has_table, w, &cfg, cx);
+                }
             }
         }
     }
